@@ -144,6 +144,7 @@ func c15bSocks(addr, ptArgs string) (net.Conn, error) {
 
 type c15bCase struct {
 	name       string
+	blackHole  bool    // the broker accepts the connection and the request and never answers
 	iceFlag    *string // nil: no -ice flag at all (the default)
 	ptArgs     string
 	holdSocks  bool   // tor still holds the SOCKS connection when the shutdown is requested
@@ -169,16 +170,35 @@ func TestVerifC15Binary(t *testing.T) {
 
 	s := func(x string) *string { return &x }
 	cases := []c15bCase{
-		{"default-ice/socks-held/sigterm", nil, "", true, "sigterm"},
-		{"default-ice/socks-closed/sigterm", nil, "", false, "sigterm"},
-		{"default-ice/socks-held/stdin-close", nil, "", true, "stdin"},
-		{"blank-ice-flag/socks-held/sigterm", s("   "), "", true, "sigterm"},
-		{"trailing-comma-ice-flag/socks-held/sigterm", s("stun:127.0.0.1:1,"), "", true, "sigterm"},
-		{"garbage-ice-flag/socks-closed/sigterm", s("foo"), "", false, "sigterm"},
-		{"socks-arg-ice-blank/socks-held/sigterm", nil, "ice= , ", true, "sigterm"},
-		{"socks-arg-ice-empty/socks-held/stdin-close", nil, "ice=", true, "stdin"},
-		{"socks-arg-max-invalid/sigterm", nil, "max=x", false, "sigterm"},
-		{"no-socks-connection/sigterm", nil, "-", false, "sigterm"},
+		{"default-ice/socks-held/sigterm", false, nil, "", true, "sigterm"},
+		{"default-ice/socks-closed/sigterm", false, nil, "", false, "sigterm"},
+		{"default-ice/socks-held/stdin-close", false, nil, "", true, "stdin"},
+		{"blank-ice-flag/socks-held/sigterm", false, s("   "), "", true, "sigterm"},
+		{"trailing-comma-ice-flag/socks-held/sigterm", false, s("stun:127.0.0.1:1,"), "", true, "sigterm"},
+		{"leading-and-inner-blank-ice-entries/socks-held/sigterm", false, s(",stun:127.0.0.1:1, ,stun:127.0.0.1:2"), "", true, "sigterm"},
+		{"garbage-ice-flag/socks-closed/sigterm", false, s("foo"), "", false, "sigterm"},
+		{"socks-arg-ice-blank/socks-held/sigterm", false, nil, "ice= , ", true, "sigterm"},
+		{"socks-arg-ice-empty/socks-held/stdin-close", false, nil, "ice=", true, "stdin"},
+		{"socks-arg-max-invalid/sigterm", false, nil, "max=x", false, "sigterm"},
+		{"no-socks-connection/sigterm", false, nil, "-", false, "sigterm"},
+		// a broker that takes the request and never answers: the attempt in flight ends at the response-header
+		// timeout of the broker transport (15 s), so shutdown is still bounded
+		{"silent-broker/no-ice-servers/socks-held/sigterm", true, s(" "), "", true, "sigterm"},
+		{"silent-broker/no-ice-servers/socks-closed/stdin-close", true, s(" "), "", false, "stdin"},
+	}
+	// the silent broker: accepts, reads, never writes
+	hole, herr := net.Listen("tcp", "127.0.0.1:0")
+	if herr == nil {
+		defer hole.Close()
+		go func() {
+			for {
+				c, err := hole.Accept()
+				if err != nil {
+					return
+				}
+				go func() { io.Copy(io.Discard, c); c.Close() }()
+			}
+		}()
 	}
 	var wg sync.WaitGroup
 	for _, c := range cases {
@@ -186,6 +206,13 @@ func TestVerifC15Binary(t *testing.T) {
 		go func(c c15bCase) {
 			defer wg.Done()
 			args := []string{"-url", "http://127.0.0.1:1/"}
+			if c.blackHole {
+				if herr != nil {
+					r.Note("client binary %s: no listener for the silent broker: %v", c.name, herr)
+					return
+				}
+				args = []string{"-url", "http://" + hole.Addr().String() + "/"}
+			}
 			if c.iceFlag != nil {
 				args = append(args, "-ice", *c.iceFlag)
 			}
